@@ -1,0 +1,50 @@
+//go:build verif
+
+// Fragmentation contracts (C09) for the govc verifier (see /verif/DESIGN.md). Comment-only.
+
+package bpv7
+
+// The fragment's primary block repeats the identifying fields of the original, is marked as a fragment and carries
+// the given offset and the total payload length.
+// govc:func fragmentPrimaryBlock property C09
+//@ assigns nothing
+//@ ensures fragPb.SourceNode == pb.SourceNode && fragPb.Destination == pb.Destination && fragPb.ReportTo == pb.ReportTo
+//@ ensures fragPb.CreationTimestamp == pb.CreationTimestamp && fragPb.Lifetime == pb.Lifetime && fragPb.Version == pb.Version && fragPb.CRCType == pb.CRCType
+//@ ensures fragPb.FragmentOffset == uint64(fragmentOffset) && fragPb.TotalDataLength == uint64(totalDataLength)
+//@ ensures uint64(fragPb.BundleControlFlags) == uint64(pb.BundleControlFlags) | 0x01
+//@ ensures l >= 0
+
+// govc:func fragmentExtensionBlocksLen property C09
+//@ requires blocksNonNil(b)
+//@ assigns nothing
+//@ loop 0 invariant 0 <= rangeindex + 1 && rangeindex + 1 <= len(b.CanonicalBlocks) && blocksNonNil(b)
+
+// govc:spec isPayloadCB(cb *CanonicalBlock, n int) bool = cb != nil && cb.Value != nil && ref(cb.Value) != 0 && is(cb.Value, *PayloadBlock) && n == len([]byte(*(cb.Value.(*PayloadBlock))))
+
+// govc:spec pbSame(x PrimaryBlock, y PrimaryBlock) bool = x.Version == y.Version && x.BundleControlFlags == y.BundleControlFlags && x.CRCType == y.CRCType && x.Destination == y.Destination && x.SourceNode == y.SourceNode && x.ReportTo == y.ReportTo && x.CreationTimestamp == y.CreationTimestamp && x.Lifetime == y.Lifetime
+
+// govc:spec valsNonNil(cbs []CanonicalBlock) bool = forall j int :: 0 <= j && j < len(cbs) ==> cbs[j].Value != nil && ref(cbs[j].Value) != 0
+
+// The fragment's primary block x repeats the identity of the original's y and is marked as a fragment.
+// govc:spec fragOf(x PrimaryBlock, y PrimaryBlock) bool = x.Version == y.Version && uint64(x.BundleControlFlags) == uint64(y.BundleControlFlags) | 0x01 && x.CRCType == y.CRCType && x.Destination == y.Destination && x.SourceNode == y.SourceNode && x.ReportTo == y.ReportTo && x.CreationTimestamp == y.CreationTimestamp && x.Lifetime == y.Lifetime
+
+// govc:func (Bundle).Fragment property C09
+//@ requires blocksNonNil(b)
+//@ ensures (uint64(b.PrimaryBlock.BundleControlFlags) & 0x04) != 0 ==> err != nil
+//@ ensures err == nil ==> len(bs) >= 1
+//@ ensures err == nil && len(bs) == 1 ==> pbSame(bs[0].PrimaryBlock, b.PrimaryBlock) && sameSlice(bs[0].CanonicalBlocks, b.CanonicalBlocks)
+//@ ensures err == nil && len(bs) > 1 ==> forall k int :: 0 <= k && k < len(bs) ==> fragOf(bs[k].PrimaryBlock, b.PrimaryBlock)
+//@ ensures err == nil && len(bs) > 1 ==> bs[0].PrimaryBlock.FragmentOffset == 0
+//@ atreturn err == nil && len(bs) > 1 ==> forall k int :: 0 <= k && k < len(bs) ==> bs[k].PrimaryBlock.TotalDataLength == uint64(payloadBlockLen) && bs[k].PrimaryBlock.FragmentOffset < uint64(payloadBlockLen)
+//@ loop 0 invariant forall k int :: 0 <= k && k < len(bs) ==> fragOf(bs[k].PrimaryBlock, b.PrimaryBlock) && bs[k].PrimaryBlock.TotalDataLength == uint64(payloadBlockLen) && (bs[k].PrimaryBlock.FragmentOffset < uint64(payloadBlockLen) || len(bs) == 1)
+//@ loop 0 invariant (len(bs) > 0 ==> bs[0].PrimaryBlock.FragmentOffset == 0) && (i == 0 ==> len(bs) == 0) && err == nil
+//@ loop 0 invariant 0 <= i && (i > 0 ==> len(bs) >= 1)
+//@ loop 0 invariant blocksNonNil(b)
+//@ loop 0 invariant isPayloadCB(payloadBlock, payloadBlockLen)
+//@ loop 0 invariant sameSlice(b.CanonicalBlocks, old(b.CanonicalBlocks)) && pbSame(b.PrimaryBlock, old(b.PrimaryBlock))
+//@ loop 1 invariant 0 <= rangeindex + 1 && rangeindex + 1 <= len(b.CanonicalBlocks)
+//@ loop 1 invariant blocksNonNil(b)
+//@ loop 1 invariant blocksNonNil(fragBundle)
+//@ loop 1 invariant isPayloadCB(payloadBlock, payloadBlockLen)
+//@ loop 1 invariant ref(fragBundle.CanonicalBlocks) != ref(b.CanonicalBlocks) || ref(fragBundle.CanonicalBlocks) == 0
+//@ loop 1 invariant sameSlice(b.CanonicalBlocks, old(b.CanonicalBlocks)) && pbSame(b.PrimaryBlock, old(b.PrimaryBlock))
